@@ -309,6 +309,12 @@ func (t *Target) rewrite(req *httputil.ProxyRequest) {
 	routingContext := RoutingContext(req.In)
 	if routingContext != nil {
 		req.Out.URL.Path = strings.TrimPrefix(req.Out.URL.Path, routingContext.MatchedPrefix)
+
+		// Keep the client's percent-encoding of the rest of the path. Without
+		// this the raw path no longer corresponds to the path, and the
+		// request would be sent with the path re-encoded from its decoded form
+		// (turning an encoded slash into a path separator, for example).
+		req.Out.URL.RawPath = strings.TrimPrefix(req.Out.URL.RawPath, routingContext.MatchedPrefix)
 	}
 
 	// Ensure query params are preserved exactly, including those we could not
